@@ -66,6 +66,8 @@ fn add_arg_filters(e: &mut Environment<'static>) {
     e.add_filter("t_value", |v: Value| format!("<{}>", v));
     e.add_filter("t_optstring", |v: Option<String>| format!("<{}>", v.unwrap_or_default()));
     e.add_filter("t_two", |a: String, b: String| format!("<{}{}>", a, b));
+    e.add_filter("t_vec", |v: Vec<String>| format!("<{}>", v.join(",")));
+    e.add_filter("t_rest", |a: String, r: minijinja::value::Rest<String>| format!("<{}:{}>", a, r.join(",")));
     // templates for the multi-template statements of the `stmt` stream
     e.add_template("inc", "(inc {{ i1 }}{{ u }})").unwrap();
     e.add_template("incdef", "(incdef {{ u is defined }}{{ u|default(1) }})").unwrap();
@@ -343,6 +345,10 @@ const SITES: &[(&str, &str, &str)] = &[
     ("coerce", "[{{ u|t_input }}]", "[<>]"),
     ("coerce", "[{{ s1|t_two(u) }}]", "[<ab>]"),
     ("coerce", "[{{ a.b|t_two(s1) }}]", "[<ab>]"),
+    ("coerce", "[{{ [s1, u]|t_vec }}]", "[<ab,>]"),
+    ("coerce", "[{{ [a.b]|t_vec }}]", "[<>]"),
+    ("model", "[{{ u|t_vec }}]", ""),
+    ("model", "[{{ s1|t_rest(u, s1) }}]", ""),
     ("model", "[{{ u|t_str }}]", ""),
     ("model", "[{{ u|t_value }}]", ""),
     ("model", "[{{ u|t_optstring }}]", ""),
